@@ -237,4 +237,129 @@ theorem transferCalls_get (cs : List Bytes) (s i : Nat) (h : i < cs.length) :
 theorem counterOf_range (i : Nat) : 0 ≤ counterOf i ∧ counterOf i < 256 := by
   unfold counterOf; omega
 
+/-! ### which request a call denotes, field by field -/
+
+theorem denote_shape (c : Call) (r : Req) (h : denote c = .ok r) : Shape (argsOf c) r := mk_shape _ _ h
+
+/-- a call with a `suppress_response` parameter denotes a sub-function request whose suppress flag is the argument
+    (left out = not suppressed) -/
+theorem denote_subfn_sup (c : Call) (r : Req) (s : Option Bool) (h : denote c = .ok r) (hs : c.supArg = some s) :
+    ∃ sf, subfn r = some (sf, s.getD false) := by
+  have hsh := denote_shape c r h
+  cases c <;> simp only [Call.supArg, Option.some.injEq, reduceCtorEq] at hs <;> subst hs
+  case report_dtc_extended_data_record_by_dtc_number d n s =>
+    cases d <;> simp only [argsOf, Shape] at hsh <;> subst hsh <;> exact ⟨_, rfl⟩
+  case define_by_memory_address => simp only [argsOf, Shape] at hsh; obtain ⟨f, rfl⟩ := hsh; exact ⟨_, rfl⟩
+  all_goals (simp only [argsOf, Shape] at hsh; subst hsh; exact ⟨_, rfl⟩)
+
+/-- a call without a `suppress_response` parameter never sets the suppress bit -/
+theorem denote_subfn_nosup (c : Call) (r : Req) (sf : Nat) (sup : Bool) (h : denote c = .ok r) (hs : c.supArg = none)
+    (hr : subfn r = some (sf, sup)) : sup = false := by
+  have hsh := denote_shape c r h
+  cases c <;> simp only [Call.supArg, reduceCtorEq] at hs <;> simp only [argsOf, Shape] at hsh
+  all_goals first
+    | (subst hsh; simp only [subfn, Option.some.injEq, Prod.mk.injEq, reduceCtorEq] at hr; exact hr.2.symm)
+    | (obtain ⟨f, rfl⟩ := hsh; simp only [subfn, reduceCtorEq] at hr)
+    | (subst hsh; simp only [subfn, reduceCtorEq] at hr)
+
+/-- the 16-bit identifier of the denoted request is the argument -/
+theorem denote_didAt (c : Call) (r : Req) (off : Nat) (d : Int) (h : denote c = .ok r) (hd : c.identArg = some (off, d)) :
+    didAt r = some (off, d.toNat) := by
+  have hsh := denote_shape c r h
+  cases c <;> simp only [Call.identArg, Option.some.injEq, Prod.mk.injEq, reduceCtorEq] at hd
+  case read_data_by_identifier x =>
+    cases x <;> simp only [Option.some.injEq, Prod.mk.injEq, reduceCtorEq] at hd
+    obtain ⟨rfl, rfl⟩ := hd
+    simp only [argsOf, IntOrList.toList, Shape, List.map_cons, List.map_nil] at hsh; subst hsh; rfl
+  case clear_dynamically_defined_data_identifier x s =>
+    cases x <;> simp only [Option.some.injEq, Prod.mk.injEq, reduceCtorEq] at hd
+    obtain ⟨rfl, rfl⟩ := hd
+    simp only [argsOf, Shape, Option.map_some] at hsh; subst hsh; rfl
+  case define_by_memory_address =>
+    obtain ⟨rfl, rfl⟩ := hd
+    simp only [argsOf, Shape] at hsh; obtain ⟨f, rfl⟩ := hsh; rfl
+  all_goals (obtain ⟨rfl, rfl⟩ := hd; simp only [argsOf, Shape, List.map_cons, List.map_nil] at hsh; subst hsh; rfl)
+
+/-- only `send_raw` denotes an opaque raw request -/
+theorem denote_not_raw (c : Call) (r : Req) (h : denote c = .ok r) (hc : c.method ≠ .send_raw) : r.isRaw = false := by
+  have hsh := denote_shape c r h
+  cases c
+  case send_raw => exact absurd rfl hc
+  case report_dtc_extended_data_record_by_dtc_number d n s =>
+    cases d <;> simp only [argsOf, Shape] at hsh <;> subst hsh <;> rfl
+  all_goals (simp only [argsOf, Shape] at hsh; first | (subst hsh; rfl) | (obtain ⟨f, rfl⟩ := hsh; rfl))
+
+/-- ISO 14229-1 service id / sub-function of a public method, from `wireTable` -/
+def wireOf (m : Method) : Option (Option Nat × Option Nat) := (wireTable.find? (fun e => e.1 = m)).map (·.2)
+
+/-- the inputOutputControlParameter the name of an InputOutputControlByIdentifier convenience method says -/
+def Call.iocbiParam : Call → Option Nat
+  | .input_output_control_by_identifier_return_control_to_ecu .. => some returnControlToECU
+  | .input_output_control_by_identifier_reset_to_default .. => some resetToDefault
+  | .input_output_control_by_identifier_freeze_current_state .. => some freezeCurrentState
+  | .input_output_control_by_identifier_short_term_adjustment .. => some 3
+  | _ => none
+
+theorem denote_iocbi_param (c : Call) (r : Req) (p : Nat) (h : denote c = .ok r) (hp : c.iocbiParam = some p) :
+    ∃ d rest m, r = .iocbi d (u8 p :: rest) m := by
+  have hsh := denote_shape c r h
+  cases c <;> simp only [Call.iocbiParam, Option.some.injEq, reduceCtorEq] at hp <;> subst hp <;>
+    simp only [argsOf, Shape] at hsh <;> subst hsh
+  · exact ⟨_, [], _, rfl⟩
+  · exact ⟨_, [], _, rfl⟩
+  · exact ⟨_, [], _, rfl⟩
+  · exact ⟨_, _, _, rfl⟩
+
+/-- after `fill` every parameter of the method's signature is passed explicitly -/
+theorem fill_complete : ∀ c : Call,
+    (sigs.find? (fun s => s.method = c.method)).map (fun s => s.params.map (·.name)) = some (c.fill.py.2.map (·.1))
+  | .send_raw x0 => by rfl
+  | .diagnostic_session_control x0 x1 => by rfl
+  | .ecu_reset x0 x1 => by rfl
+  | .security_access_request_seed x0 x1 x2 => by rfl
+  | .security_access_send_key x0 x1 x2 => by rfl
+  | .communication_control x0 x1 x2 => by rfl
+  | .tester_present x0 => by rfl
+  | .control_dtc_setting x0 x1 x2 => by rfl
+  | .read_data_by_identifier x0 => by rfl
+  | .read_memory_by_address x0 x1 x2 => by rfl
+  | .write_data_by_identifier x0 x1 => by rfl
+  | .write_memory_by_address x0 x1 x2 x3 => by rfl
+  | .clear_diagnostic_information x0 => by rfl
+  | .read_dtc_information_report_number_of_dtc_by_status_mask x0 x1 => by rfl
+  | .read_dtc_information_report_dtc_by_status_mask x0 x1 => by rfl
+  | .read_dtc_information_report_mirror_memory_dtc_by_status_mask x0 x1 => by rfl
+  | .read_dtc_information_report_number_of_mirror_memory_dtc_by_status_mask x0 x1 => by rfl
+  | .read_dtc_information_report_number_of_emissions_related_obd_dtc_by_status_mask x0 x1 => by rfl
+  | .read_dtc_information_report_emissions_related_obd_dtc_by_status_mask x0 x1 => by rfl
+  | .report_dtc_extended_data_record_by_dtc_number x0 x1 x2 => by rfl
+  | .input_output_control_by_identifier x0 x1 x2 => by rfl
+  | .input_output_control_by_identifier_return_control_to_ecu x0 x1 => by rfl
+  | .input_output_control_by_identifier_reset_to_default x0 x1 => by rfl
+  | .input_output_control_by_identifier_freeze_current_state x0 x1 => by rfl
+  | .input_output_control_by_identifier_short_term_adjustment x0 x1 x2 => by rfl
+  | .routine_control_start_routine x0 x1 x2 => by rfl
+  | .routine_control_stop_routine x0 x1 x2 => by rfl
+  | .routine_control_request_routine_results x0 x1 x2 => by rfl
+  | .request_download x0 x1 x2 x3 x4 => by rfl
+  | .request_upload x0 x1 x2 x3 x4 => by rfl
+  | .transfer_data x0 x1 => by rfl
+  | .request_transfer_exit x0 => by rfl
+  | .define_by_identifier x0 x1 x2 x3 x4 => by rfl
+  | .define_by_memory_address x0 x1 x2 x3 x4 => by rfl
+  | .clear_dynamically_defined_data_identifier x0 x1 => by rfl
+  | .ping => by rfl
+  | .read_session => by rfl
+  | .set_session x0 x1 => by rfl
+  | .read_dtc => by rfl
+  | .clear_dtc => by rfl
+  | .read_vin => by rfl
+  | .refresh_state x0 => by rfl
+
+theorem transfer_data_bytes (i : Nat) (c : Bytes) :
+    denote (.transfer_data (counterOf i) (some c)) = .ok (.transferData ((i + 1) % 256) c) := by
+  have hb : bIn (counterOf i) 256 := counterOf_range i
+  have ht : (counterOf i).toNat = (i + 1) % 256 := by unfold counterOf; omega
+  simp only [denote, argsOf, Option.getD_some, mk, natIn_ok hb, bind_ok, ht]; rfl
+
 end Gallia.UdsClientApi
